@@ -168,6 +168,7 @@ type addSpec struct {
 	idClass  string
 	items    []wireItem
 	prefix   string // classes of the retried attempts
+	sess     *session // nil: a fresh client; else the call is the next one of this session (its key, its clients)
 }
 
 func caseAddChain(t *testing.T, sp addSpec) lib.Case {
@@ -177,8 +178,12 @@ func caseAddChain(t *testing.T, sp addSpec) lib.Case {
 	var sct *ct.SignedCertificateTimestamp
 	var err error
 	var call func(ctx context.Context)
+	if sp.sess != nil {
+		sp.sess.use(sc)
+		sp.key = sp.sess.key
+	}
 	if sp.temporal {
-		tlc := newTemporalClient(sc, sp.key)
+		tlc := sp.sess.temporal(sc, sp.key)
 		call = func(ctx context.Context) {
 			if sp.precert {
 				sct, err = tlc.AddPreChain(ctx, chain)
@@ -187,7 +192,7 @@ func caseAddChain(t *testing.T, sp addSpec) lib.Case {
 			}
 		}
 	} else {
-		lc := newClient(sc, sp.key, sp.usePEM)
+		lc := sp.sess.plain(sc, sp.key, sp.usePEM)
 		call = func(ctx context.Context) {
 			if sp.precert {
 				sct, err = lc.AddPreChain(ctx, chain)
@@ -290,16 +295,31 @@ func caseAddChain(t *testing.T, sp addSpec) lib.Case {
 	for _, a := range atts {
 		classes = append(classes, a.Class)
 	}
+	if !ok {
+		note += sp.sess.after()
+	}
+	hist := sp.sess.history()
+	htags := sp.sess.tags()
+	if sp.sess != nil {
+		ep := "add-chain "
+		if sp.precert {
+			ep = "add-pre-chain "
+		}
+		if sp.temporal {
+			ep = "temporal " + ep
+		}
+		sp.sess.did(ep+sp.chain.name+" "+sp.name, obs.Class)
+	}
 	return lib.Case{
 		Coq: fmt.Sprintf("CAddChain %s %s %d%%N %s %s %s %s %s %s", cfgCoq(sp.key, valid), lib.Bool(sp.temporal), etype, lib.List(toks),
 			x509Coq, preCoq, lib.List(heads), lib.List(os), obsCoq),
 		Input: map[string]interface{}{"method": "AddChain", "precert": sp.precert, "temporal": sp.temporal, "key": keyName(sp.key), "chain": sp.chain.name,
-			"response": sp.name, "id": sp.idClass, "retried": sp.prefix, "script": sc.items, "attempts": atts, "valid_pairs": len(valid)},
+			"response": sp.name, "id": sp.idClass, "retried": sp.prefix, "script": sc.items, "attempts": atts, "valid_pairs": len(valid), "history": hist},
 		Impl:   obs,
 		PropOK: ok, Note: note,
-		Tags: []string{"method:AddChain", fmt.Sprintf("add-chain:precert=%v:temporal=%v", sp.precert, sp.temporal), "add-chain:chain=" + sp.chain.name,
+		Tags: append([]string{"method:AddChain", fmt.Sprintf("add-chain:precert=%v:temporal=%v", sp.precert, sp.temporal), "add-chain:chain=" + sp.chain.name,
 			"add-chain:response=" + sp.name, "add-chain:id=" + sp.idClass + ":key=" + keyName(sp.key) + ":" + obs.Class, "key:" + keyName(sp.key),
-			"result:" + obs.Class, fmt.Sprintf("add-chain:attempts=%d", len(atts)), "add-chain:retried=" + sp.prefix},
+			"result:" + obs.Class, fmt.Sprintf("add-chain:attempts=%d", len(atts)), "add-chain:retried=" + sp.prefix}, htags...),
 	}
 }
 
@@ -363,6 +383,41 @@ func genAddChain(t *testing.T, r randT, w *lib.Writer, fx *fixtures, configs []*
 				items = append(items, f.items...)
 				w.Add(caseAddChain(t, addSpec{key: key, usePEM: r.Intn(2) == 0, temporal: r.Intn(8) == 0, precert: s.precert, chain: ch,
 					name: f.name, idClass: f.idClass, items: items, prefix: strings.Join(names, "+")}))
+			}
+		}
+		// 4. submitted chains whose head parses with a NON-fatal X.509 error only (tolerated quirks):
+		// the signature must be held to the entry of exactly that chain; the temporal client refuses them
+		for _, precert := range []bool{false, true} {
+			var cands []chainFix
+			for _, c := range fx.chains {
+				if strings.HasPrefix(c.name, map[bool]string{false: "x509-quirk:", true: "pre-quirk:"}[precert]) {
+					cands = append(cands, c)
+				}
+			}
+			picks := cands
+			if lib.Tier() == "quick" {
+				picks = []chainFix{cands[r.Intn(len(cands))]}
+			}
+			for _, ch := range picks {
+				e := deriveEntry(ch.certs, precert)
+				if e == nil {
+					panic("c12: no entry derived from " + ch.name)
+				}
+				vs, _ := sctVariants(r, fx, signer, foreign, ch.certs, e, other)
+				for _, v := range vs {
+					switch v.name {
+					case "valid", "valid-with-extensions", "foreign-signature", "timestamp-changed", "signed-for-another-chain",
+						"signed-for-same-chain-as-other-entry-type", "id-wrong-32-bytes":
+					default:
+						continue
+					}
+					w.Add(caseAddChain(t, addSpec{key: key, usePEM: r.Intn(2) == 0, temporal: v.name == "timestamp-changed", precert: precert, chain: ch,
+						name: v.name, idClass: v.idClass, items: v.items}))
+					if v.name == "valid" {
+						w.Add(caseAddChain(t, addSpec{key: key, usePEM: true, temporal: true, precert: precert, chain: ch,
+							name: v.name, idClass: v.idClass, items: v.items}))
+					}
+				}
 			}
 		}
 		// 3. chains from which no entry can be derived, with a response that is otherwise good
